@@ -110,6 +110,9 @@ static void log_obs(int must1, int must2, int extra) {
   }
   vf_logf("]");
 }
+static void* vf_flight[16];          /* per virtual thread: the block it is currently releasing (free / realloc in progress) */
+static int heap_dying = -1;          /* index in hps of a heap whose delete/destroy call is in progress (its descriptor may already be freed) */
+static int owner_busy = 0;           /* the main thread is inside an API call */
 static __thread int cur_t = 0;            /* virtual thread id of the running thread (0 = main) */
 static __thread int cur_theap = 0;        /* heap id of the running worker thread's backing heap (0 on the main thread) */
 static int call_at = 0;   /* the op takes an explicit offset argument */
@@ -118,10 +121,10 @@ static void log_call_begin(const char* op, int h, int id, long n, size_t al, siz
           cur_t, call_at ? "true" : "false", op, h, id, n, al, off, zero ? "true" : "false", cls, arena, stopat);
   call_at = 0;
 }
-static void log_call_end(void) { vf_logf("}"); vf_log_line_end(); vf_in_call = 1; }
+static void log_call_end(void) { vf_logf("}"); vf_log_line_end(); vf_in_call = 1; if (cur_t == 0) owner_busy = 1; }
 typedef struct { int null; int id; void* a; size_t us, z, wr, keep; uint32_t gen; int rc, err, outkeep, res, h; long nvisited; } ret_t;
 static void log_ret_begin(const char* op, const ret_t* r) {
-  vf_in_call = 0;
+  vf_in_call = 0; if (cur_t == 0) owner_busy = 0;
   vf_logf("{\"e\":\"ret\",\"t\":%d,\"op\":\"%s\",\"null\":%s,\"id\":%d,\"a\":[%ld,%ld],\"us\":%zu,\"z\":%zu,\"gen\":%u,\"wr\":%zu,\"keep\":%zu,\"rc\":%d,\"errno\":%d,\"outkeep\":%s,\"res\":%s,\"h\":%d,\"nvisited\":%ld",
           cur_t, op, r->null ? "true" : "false", r->id, VF_HI(r->a), VF_LO(r->a), r->us, r->z, r->gen, r->wr, r->keep, r->rc, r->err,
           r->outkeep ? "true" : "false", r->res ? "true" : "false", r->h, r->nvisited);
@@ -318,6 +321,7 @@ static void op_free_slot(int s, int fop) {
   log_obs(s, -1, 1); log_call_end();
   void* p = b->p; size_t req = b->req, al = b->al;
   clear_block(s);
+  if (cur_t >= 0 && cur_t < 16) vf_flight[cur_t] = p;
   switch (fop) {
     case FR_free: mi_free(p); break;
     case FR_free_size: mi_free_size(p, req); break;
@@ -326,6 +330,7 @@ static void op_free_slot(int s, int fop) {
     case FR_cfree: mi_cfree(p); break;
   }
   vf_in_call = 0;
+  if (cur_t >= 0 && cur_t < 16) vf_flight[cur_t] = NULL;
   ret_t r; memset(&r, 0, sizeof(r));
   log_ret_begin(frops[fop], &r); log_obs(-1, -1, 2); log_ret_end();
 }
@@ -634,8 +639,9 @@ static void heap_new_op(void) {
 static void heap_delete_op(int i) {     /* blocks migrate to the backing heap */
   ret_t r; memset(&r, 0, sizeof(r));
   log_call_begin("heap_delete", hps[i].id, 0, 0, 0, 0, 0, "ok", 0, 0); log_obs(-1, -1, 2); log_call_end();
+  heap_dying = i;
   mi_heap_delete(hps[i].hp);
-  vf_in_call = 0;
+  vf_in_call = 0; heap_dying = -1;
   for (int s = 0; s < MAXSLOTS; s++) if (slots[s].p && slots[s].heap == hps[i].id) slots[s].heap = hps[0].id;
   if (dflt_idx == i) dflt_idx = 0;
   hps[i].alive = 0; hps[i].descid = 0;
@@ -645,7 +651,9 @@ static void heap_destroy_op(int i) {    /* exactly its own blocks die */
   ret_t r; memset(&r, 0, sizeof(r));
   log_call_begin("heap_destroy", hps[i].id, 0, 0, 0, 0, 0, "ok", 0, 0); log_obs(-1, -1, 2); log_call_end();
   for (int s = 0; s < MAXSLOTS; s++) if (slots[s].p && slots[s].heap == hps[i].id) clear_block(s);
+  heap_dying = i;
   mi_heap_destroy(hps[i].hp);
+  heap_dying = -1;
   if (dflt_idx == i) dflt_idx = 0;
   hps[i].alive = 0; hps[i].descid = 0;
   log_ret_begin("heap_destroy", &r); log_obs(-1, -1, 6); log_ret_end();
